@@ -399,3 +399,35 @@ Fixpoint m_wexpr_faithful (e : wexpr) : option nsc :=
   | WInter a b => match m_wexpr_faithful a, m_wexpr_faithful b with Some x, Some y => m_wc_inter_faithful x y | _, _ => None end
   | WUnion a b => match m_wexpr_faithful a, m_wexpr_faithful b with Some x, Some y => m_wc_union_faithful x y | _, _ => None end
   end.
+
+(** * TraverseSchema::checkAttDerivationOK (complex type restriction) and isWildCardSubset *)
+Definition m_wc_subset (base child : nsc) : bool :=
+  match base with
+  | NsAny => true
+  | NsNot v => match child with
+               | NsNot u => (u =? v)%N
+               | NsSet l => negb (mem_uri v l)
+               | NsAny => false
+               end
+  | NsSet lb => match child with NsSet l => forallb (fun x => mem_uri x lb) l | _ => false end
+  end.
+(** the body of the loop for one attribute of the derived type that the restriction declares (the attributes copied
+    from the base type compare equal to themselves and never report); true = no schema error *)
+Definition m_adecl_check (tder : N -> N -> bool) (base : list adecl) (bw : option nsc) (c : adecl) : bool :=
+  match find_adecl (ad_name c) base with
+  | Some b =>
+      negb (is_required (ad_use b) && negb (is_required (ad_use c))) &&     (* BadAttDerivation_2 *)
+      match ad_use c with
+      | UProhibited => true
+      | _ => tder (ad_type c) (ad_type b) &&                                (* BadAttDerivation_3 *)
+             vc_fixed_ok (ad_vc b) (ad_vc c)                                (* BadAttDerivation_4 *)
+      end
+  | None => match bw with Some w => wildcard_allows w (fst (ad_name c)) | None => false end   (* BadAttDerivation_5 *)
+  end.
+Definition m_att_derivation (tder : N -> N -> bool) (base : list adecl) (bw : option nsc)
+                            (decls : list adecl) (dw : option nsc) : bool :=
+  forallb (m_adecl_check tder base bw) decls &&
+  match dw with
+  | None => true
+  | Some wd => match bw with Some wb => m_wc_subset wb wd | None => false end       (* _6 / _7 *)
+  end.
